@@ -109,7 +109,7 @@ CLAIMED = {
                 "amplitude, baseline, positivity, field-of-view mask, slice tying) as a step-wise state machine over amplitude BOUNDS "
                 "in exact units of 1/20, for every constraint configuration (object type x apply_fov_mask x identical_slices x "
                 "positivity x baseline x mask present), every raw amplitude class {0, 1/2, 1, 2, 5} (potential: {-2, -1/2, 0, 1/2, 2}) "
-                "per entry and every mask value {0, 1/2, 1} per pixel; steps are deliberately loose where the property is silent "
+                "per entry and every mask value {0, 1/2, 1} per slice and pixel; steps are deliberately loose where the property is silent "
                 "(fractional mask values, baseline offset, amplitude after tying). TLC checks AdmissibleObject (complex <= 1, pure "
                 "phase = 1 on exact entries, potential >= 0 under positivity) in every final state and rejects a pipeline without the "
                 "clamp. Probe part: Gram-Schmidt + norm restoration + intensity sort over the Gaussian integers in exact fraction-free "
@@ -121,7 +121,8 @@ CLAIMED = {
                 "ProbeConstraints._probe_orthogonalization_constraint and ProbePixelated.probe must return mutually orthogonal modes "
                 "whose intensities are the model's sorted integer list; set_initial_probe / _apply_weights must give the total "
                 "diffraction intensity and the per-mode fractions the model computes as exact rationals; the tomography object model's "
-                "positivity clamp is checked against the same bounds rule. NOT decided: arbitrary float tensors (only the amplitude "
+                "positivity clamp is checked against the same bounds rule; probe mode sets are handed over in four amplitude units and "
+                "three mean-intensity scales. NOT decided: arbitrary float tensors (only the amplitude "
                 "lattice), smoothing filters, probe centring, 5 modes.",
         "note": "Trusted: TLC integer arithmetic; float32 comparison tolerances 2e-6 (object) and 1e-4 relative (probe); the harness's "
                 "translation of an amplitude class into a complex number with an arbitrary phase. 3- and 4-mode sets are drawn by "
@@ -235,7 +236,8 @@ CLAIMED = {
                 "(phi + phi_nm, 'defocus' = +C10, azimuthal derivative with the wrong sign). Every behaviour is exported "
                 "with the exact lattice values and replayed through standardize_aberration_coefs, "
                 "validate_aberration_coefficients, the probe_params setter (ProbePixelated, ProbeParametric), "
-                "polar_to_cartesian_aberrations, cartesian_to_polar_aberrations, merge_aberration_coefficients; after every "
+                "polar_to_cartesian_aberrations, cartesian_to_polar_aberrations, merge_aberration_coefficients, and - action Reassign / "
+                "ReassignLaw - a second assignment of one term (canonical or alias spelling) on the live probe models; after every "
                 "step aberration_surface, aberration_surface_cartesian_gradients, aberration_surface_cartesian_basis, "
                 "parse_cartesian_aberration_label, aberration_surface_grad and DirectPtychography._return_lateral_shifts are "
                 "evaluated on the lattice and compared with TLC's integers; first-order states inside the identifiable "
